@@ -143,14 +143,37 @@ def value_class(c):
 
 
 def case_class(c):
+    if c['id'].startswith('P'):
+        from . import c16
+        return c16.poly_class(c)
     s = c01.sig_class(c)
     v = value_class(c)
     return s + ('|' + v if v else '')
 
 
+def poly_jobs(cases, first, quick, seed):
+    """SpynePolyCases (class trees, runtime subclass where the base is declared): wrapper documents, polymorphic on / off"""
+    jobs = []
+    for i, c in enumerate(cases):
+        if i < first:
+            continue
+        n = 0
+        for fam in FAMS:
+            for validator in (None, 'soft'):
+                n += 1
+                if quick and (i + n + seed) % 2 == 0:
+                    continue
+                jobs.append((i, dict(fam=fam, iw=False, ca='dict', poly=c['poly']), validator, 'map', 'bytes'))
+    return jobs
+
+
 def run(ctx):
+    from . import c16
     cases = D.export(ctx)
     jobs = plan(cases, ctx.quick, ctx.seed)
+    first = len(cases)
+    cases = cases + [dict(c, share=False) for c in c16.export(ctx)]
+    jobs += poly_jobs(cases, first, ctx.quick, ctx.seed)
     obs = collect(ctx, cases, jobs)
     nfail = judge(ctx, cases, jobs, obs)
     ctx.level = 'exploration'
